@@ -35,10 +35,14 @@ class Fn:
         return "Fn(%s)" % self.path
 
 
+PROGS = []
+
+
 class Prog:
     """Index over the fact files of one configuration (both crates)."""
 
     def __init__(self, facts):
+        PROGS.append(self)
         self.facts = facts
         self.fns = {}
         self.fn_list = []
